@@ -26,6 +26,10 @@ RETURN_KINDS = {
     'itertools.dropwhile': 'islice', 'itertools.cycle': 'islice',
     'itertools.repeat': 'islice', 'itertools.count': 'islice',
     'itertools.zip_longest': 'islice', 'builtins.range': 'tuple',
+    'itertools.chain.from_iterable': 'islice', 'itertools.starmap': 'islice',
+    'itertools.accumulate': 'islice', 'itertools.filterfalse': 'islice',
+    'itertools.compress': 'islice', 'itertools.pairwise': 'islice',
+    'itertools.product': 'islice', 'itertools.groupby': 'islice',
     'builtins.tuple': 'tuple', 'builtins.list': 'list',
     'builtins.frozenset': 'frozenset', 'builtins.set': 'set',
     'builtins.dict': 'dict', 'builtins.sorted': 'list',
